@@ -1,11 +1,34 @@
 CFG = dict(
     props_file='Props/C09.v',
     coq_targets=['Checks/C09.vo', 'Props/C09.vo'],
-    level_text='TBD',
-    level_note='TBD',
-    bin='c09', n_quick=3000, n_thorough=60000,
-    corr_name='Model/Syntax.v vs parse_rule/Display',
-    rule='TBD',
-    trusted_base=[],
-    assumptions=[],
+    level_text='C09_roundtrip_partial: for EVERY environment and EVERY rule of the decidable fragment wf_rule (atoms; variables, integers, '
+               'floats, strings, booleans, placeholders, vector literals, standard aggregates, function calls, arithmetic with all five '
+               'operators, precedence and parentheses; negation; all six comparisons) parse_rule (show_rule r) = Some r, proved by structural '
+               'induction over a CHARACTER-level model of the real parser (a cascade of string splits) and printer; C09_arith_roundtrip is '
+               'the full statement for arithmetic; C09_paths_agree_partial: direct / inline / session / persistent submission all yield the '
+               'same rule (the persistent path through the modelled lossy stored form). The full property is refuted for the pinned tree by six '
+               'machine-checked witnesses (C09_refuted_*), one per recorded class. The model is tied to the code on every run: grammar-generated '
+               'and mutated rule texts go through the real parse_rule -> Display -> parse_rule and the three results are compared with the model '
+               'inside Coq; a sample of evaluable rules is submitted through the engine and the Handler on all paths (incl. restart).',
+    level_note='_partial: ranking aggregates, hnsw_nearest(..), strings containing , ( ) < > [ ] = !, non-ASCII identifiers are outside the proved '
+               'fragment and covered by the per-run correspondence and oracle only. Trusted: Coq kernel; the harness (AST printer, tables of f64 '
+               'lexeme values / {} / {:?} texts / non-ASCII character classes taken from Rust and validated per case by tabs_ok); the hand-written '
+               'model agrees with the Rust code by correspondence, not by proof.',
+    bin='c09', n_quick=2000, n_thorough=40000,
+    corr_name='Model/Syntax.v (parse_rule, show_rule) vs inputlayer::parser::parse_rule / Display',
+    rule='hand-written corpus (65 texts incl. every known-finding witness and the two repaired defects) + seeded grammar-based rule texts '
+         '(all term kinds; float lexemes integral/exponent/negative/huge/subnormal/inf/nan; strings incl. quotes, backslashes, unicode and the '
+         'splitter characters; nested arithmetic with redundant parentheses and spacing noise; negation; comparisons; standard and ranking '
+         'aggregates; function calls; hnsw_nearest) + 1/7 character-mutated texts; every 20th case is an end-to-end submission of an evaluable '
+         'rule on 5 paths. non-trivial = accepted rule with at least one non-variable term or a non-atom body predicate (key = printed text), '
+         'or an end-to-end case with a non-empty answer (key = rule text)',
+    trusted_base=['per-case tables from Rust: str::parse::<f64> on numeric lexemes, format!("{}")/format!("{:?}") of every float in the ASTs, '
+                  'char::is_alphanumeric/is_uppercase/is_lowercase/is_whitespace of every character; checked against the model recogniser and '
+                  'the shape assumptions (tabs_ok) on every case',
+                  'NaN payloads/signs are canonicalised to one NaN on both sides',
+                  'BuiltinFunc names are compared through as_str(); to_lowercase is modelled for ASCII only (generator emits no U+212A/U+0130 in names)',
+                  'end-to-end cases: the model does not evaluate rules; the oracle is equality of the sorted answer sets of the real paths'],
+    assumptions=['serde_json stores finite f64 exactly (persistent path, restart)',
+                 'the theorem is about parse_rule/Display; line splitting and comment stripping of whole programs (parse_program, parse_statement) '
+                 'are exercised only by the end-to-end cases'],
 )
